@@ -6,7 +6,10 @@ Open Scope Z_scope.
 
 (* the real merge of two statistics blocks (hook VerifPreAggMerge) against the model, for ANY two blocks - also values
    beyond 2^53, where the float64 round trip of IntegerPreAgg.merge rounds: 2 the model's result differs *)
-Definition check_merge_int (a b got : stat) : Z := if stat_eqb (int_merge via_f64 a b) got then 0 else 2.
+(* integers: 2 = differs from today's merge (min / max through float64), 4 = differs from a merge that hands the int64
+   over as it is (what a repair of the float64 routing would do; the two agree whenever |min|, |max| <= 2^53) *)
+Definition check_merge_int (a b got : stat) : Z :=
+  (if stat_eqb (int_merge via_f64 a b) got then 0 else 2) + (if stat_eqb (int_merge (fun v => v) a b) got then 0 else 4).
 Definition check_merge_float (a b got : stat) : Z :=
   if stat_eqb (no_sum (fl_merge (fun _ _ => 0) a b)) (no_sum got) then 0 else 2.
 
